@@ -296,7 +296,7 @@ class Scenario:
             "remove_files": remove_files,
             "samples_csv": samples_csv,
             "keep_internal": keep_internal,
-            "search": kind,
+            "search": kind.split("_")[0],
             "fom_is_likelihood": kind == "dynesty" or (kind == "drawer" and prior == "uniform"),
         }
         self.name = f"{kind}/{prior}/rm{int(remove_files)}csv{int(samples_csv)}int{int(keep_internal)}"
@@ -947,7 +947,7 @@ def run(ctx):
     if quick:
         # one exhaustive enumeration (all kill points, file empty) of a cheap search, a sampled one of the
         # other cheap search with a different output setting, a few dynesty points
-        k1, k2 = rng.sample(["drawer", "lbfgs"], 2)
+        k1, k2 = rng.sample(["drawer", "lbfgs", "lbfgs_cap"], 2)
         c1, c2, c3 = rng.sample(combos, 3)
         plans = [
             (k1, rng.choice(["uniform", "gauss"]), c1, None, ("empty",), 1, 3),
@@ -956,7 +956,7 @@ def run(ctx):
         ]
     else:
         plans = []
-        for kind in ("drawer", "lbfgs", "dynesty"):
+        for kind in ("drawer", "lbfgs", "lbfgs_cap", "dynesty"):
             for c in combos:
                 prior = rng.choice(["uniform", "gauss"]) if kind != "dynesty" else "uniform"
                 budget = None if kind != "dynesty" else 28
